@@ -60,10 +60,46 @@ def run(ctx):
     ctx.ob("C42.D3-span-ended-by-key", cname(ender, None, "the span is taken out of the container by run key"), ok,
            "" if ok else "the span to end is chosen by position (pop()) rather than by the run's key", nontrivial=True, where=where(ender, ender.node))
     txt = A.norm(ender.node)
-    ok = "_span.set_attribute('exit_status', exit_status)" in txt and "_span.set_attribute('reason', reason)" in txt and txt.count("_span.end()") == 1
+    popped = [s_.targets[0].id for s_ in A.walk_stmts(ender.node.body) if isinstance(s_, ast.Assign) and isinstance(s_.targets[0], ast.Name)
+              and any(c is s_.value for c in pops)]
+    sv = popped[0] if popped else "_span"
+    ok = f"{sv}.set_attribute('exit_status', exit_status)" in txt and f"{sv}.set_attribute('reason', reason)" in txt and txt.count(f"{sv}.end()") == 1
     ctx.ob("C42.D3-span-ended-by-key", cname(ender, None, "status and reason recorded, span ended once"), ok, "" if ok else "attributes / end changed", where=where(ender, ender.node))
     t2 = A.norm(ct.node)
-    ok = "msg.kwargs.get('exit_status', self._exit_status)" in t2 and "msg.kwargs.get('reason', self._reason)" in t2 and ("msg.run" in t2)
+    # the arguments of the _end_run_trace call, evaluated for the four cases of the message carrying / not carrying the two keywords
+    ok = "msg.run" in t2
+    ends_ = [c for c in A.calls_in(ct.node) if A.call_name(c) == "self._end_run_trace"]
+    if ok and len(ends_) == 1 and len(ends_[0].args) == 3:
+        for has_s in (True, False):
+            for has_r in (True, False):
+                truth = {"'exit_status' in msg.kwargs": has_s, "'exit_status' not in msg.kwargs": not has_s, "'reason' in msg.kwargs": has_r, "'reason' not in msg.kwargs": not has_r}
+                body_ = q.specialise(A.body(ct.node), truth)
+                flat_ = [x for x in A.walk_stmts(body_)]
+                call_st = next((x for x in flat_ if any(A.call_name(c) == "self._end_run_trace" for c in A.calls_in(x))), None)
+                if call_st is None:
+                    ok = False
+                    continue
+                c_ = [c for c in A.calls_in(call_st) if A.call_name(c) == "self._end_run_trace"][0]
+                present = {}
+                if has_s:
+                    present["exit_status"] = q._Sym("msg.exit_status")
+                if has_r:
+                    present["reason"] = q._Sym("msg.reason")
+                got = []
+                for a_, dflt in ((c_.args[1], "self._exit_status"), (c_.args[2], "self._reason")):
+                    v_ = q.straight_line_value(flat_[:flat_.index(call_st)], a_)
+
+                    class _Dflt(ast.NodeTransformer):
+                        def visit_Attribute(self, n):
+                            return ast.Constant(value="DEFAULT") if A.norm(n) == dflt else self.generic_visit(n)
+                    try:
+                        got.append(q.eval_lookup(_Dflt().visit(v_), "msg.kwargs", present))
+                    except (ValueError, KeyError):
+                        got.append("?")
+                want = [present.get("exit_status", "DEFAULT"), present.get("reason", "DEFAULT")]
+                ok = ok and got == want and A.norm(c_.args[0]) == "msg.run"
+    else:
+        ok = False
     ctx.ob("C42.D3-span-ended-by-key", cname(ct, None, "message close: the message's own status / reason / run key"), ok, "" if ok else "another run's status / key is used", where=where(ct, ct.node))
     h = rm.handler("close_run")
     closes = [s for s in A.walk_stmts(h.node.body) if not isinstance(s, (ast.Try, ast.If, ast.With, ast.For, ast.While)) and A.find_calls(s, "current_run.close_run")]
@@ -101,7 +137,17 @@ def run(ctx):
     # abort / halt end every open span, removing them
     d = rm.m("_destroy_open_run_tracing_spans")
     t = A.norm(d.node)
-    ok = ("popitem()" in t or ".pop(" in t) and "_span.end()" in t and any(isinstance(s, ast.While) for s in d.node.body)
+    # a while loop that takes every span out of the container (directly or through a local alias of it) and ends it
+    gd = q.cfg(d, q.quiet_policy(repo))
+    ok = False
+    for wl in [s_ for s_ in d.node.body if isinstance(s_, ast.While)]:
+        for st_ in wl.body:
+            if isinstance(st_, ast.Assign) and isinstance(st_.value, ast.Call) and isinstance(st_.value.func, ast.Attribute) and st_.value.func.attr in ("popitem", "pop") \
+                    and gd.nodes_of(st_) and A.norm(q.expand_at(gd, gd.nodes_of(st_)[0], st_.value.func.value)) == f"self.{SPANS}":
+                tg = st_.targets[0]
+                span_var = tg.elts[1].id if isinstance(tg, ast.Tuple) and len(tg.elts) == 2 and isinstance(tg.elts[1], ast.Name) else (tg.id if isinstance(tg, ast.Name) else None)
+                if span_var and sum(1 for x in wl.body if A.norm(x) == f"{span_var}.end()") == 1:
+                    ok = True
     ctx.ob("C42.D3-span-ended-by-key", cname(d, None, "abort / halt end and remove every open span"), ok, "" if ok else "spans stay in the container after being ended (ended twice later)", where=where(d, d.node))
     for nm in ("_abort_coro", "_halt_coro"):
         f = rm.m(nm)
